@@ -424,7 +424,17 @@ def runOp (K : Keys) (committedKeys : String) (lite : Bool) (skipM0 : Bool) (reh
                  g2.history.positions.map posobs == g.history.positions.map posobs)
       (sess, s!"tags={hexText tags} words={hexText (Game.joinWith [' '] words)} rt={rt} ## ")
     | none => (sess, "bad-session ## ")
-  | "g.frompgn" => (sess, "r=* ## ")
+  | "g.frompgn" => (sess,
+      -- `Game::from_pgn` on ARBITRARY text: section split, move and result regexes (Model/PgnRegex.lean), replay by SAN lookup
+      match unhexText (arg 1) with
+      | none => "bad-hex ## "
+      | some t =>
+        match Board.ofFen K startFen with
+        | .error _ => "r=err ## "
+        | .ok sb =>
+          match Game.ofPgnRegex K (Game.ofBoard sb) t with
+          | .error _ => "r=err ## "
+          | .ok g2 => s!"r=ok st={gstatusStr g2.status} n={g2.history.moves.length} fen={us g2.position.asFen} ## ")
   | "rx" => (sess,
       match unhexText (arg 1) with
       | none => "bad-hex ## "
